@@ -69,6 +69,9 @@ func VerifC13PatchLib() {
 	t := vC13TargetLib()
 	r, err := t.Patch(d)
 	vAssert(err != nil || r != nil, "v1 Patch returned neither a document nor an error")
+	if err == nil {
+		vObserve("~result", r.Json())
+	}
 	if vParam("RENDER", 0) == 1 {
 		_ = d.Render()
 		s1, e1 := d.RenderPatch()
@@ -85,7 +88,23 @@ func VerifC13ReadLib() {
 		"@ [[\"set\"],{}]\n- 1\n", "@ [[\"multiset\"],{}]\n- 1\n- 1\n", "@ [[\"MERGE\"],-4]\n+ 1\n", "@ [{\"id\":1},-9]\n- 1\n", "@ [[\"set\",\"setkeys=id\"],{\"id\":1},\"k\"]\n- 1\n+ 2\n",
 		"@ [[],0]\n- 1\n", "@ [[\"bogus\"]]\n+ 1\n", "@ []\n- 1\n- 2\n", "@ [0,-7]\n+ 1\n", "@ [{}]\n+ 1\n",
 	}
-	d, err := ReadDiffString(texts[vChoice(len(texts))])
+	patches := [...]string{
+		`[{"op":"add","path":"/0","value":1}]`, `[{"op":"add","path":"/-","value":1}]`, `[{"op":"add","path":"/-3","value":1}]`, `[{"op":"add","path":"/9","value":1}]`,
+		`[{"op":"test","path":"/0","value":1}]`, `[{"op":"remove","path":"/0"}]`, `[{"op":"remove","path":"/-","value":1}]`, `[{"op":"bogus","path":"/0"}]`, `{}`, `[1]`, `[{}]`,
+		`[{"op":"test","path":"/0","value":1},{"op":"remove","path":"/1","value":1}]`, `[{"op":"test","path":"/k/0","value":1},{"op":"remove","path":"/k/0","value":1},{"op":"add","path":"/k/0","value":2}]`,
+		`[{"op":"add","path":"k","value":1}]`, `[{"op":"add","path":"/~2","value":1}]`, `[{"op":"add","path":"","value":1}]`, `[{"op":"remove","path":"","value":1}]`, `[{"op":"add","path":"/0/0/0","value":1}]`, `[{"op":1,"path":2,"value":3}]`,
+	}
+	merges := [...]string{`null`, `{}`, `1`, `[1]`, `{"k":null}`, `{"k":{"k":null}}`, `{"k":[null]}`, `{`, ``, `{"k":{}}`}
+	var d Diff
+	var err error
+	switch vChoice(3) {
+	case 0:
+		d, err = ReadDiffString(texts[vChoice(len(texts))])
+	case 1:
+		d, err = ReadPatchString(patches[vChoice(len(patches))])
+	default:
+		d, err = ReadMergeString(merges[vChoice(len(merges))])
+	}
 	if err != nil {
 		vCover("c13.lib.read")
 		return
